@@ -12,7 +12,7 @@ RULE = (
     "model and compare with the dense reference normal equations (AD Jacobians, explicit loops, numpy.linalg.solve). "
     "Non-trivial = parallel edge, reversed edge, mixed dimensions, >=2 fixed vertices or an n-ary custom edge; distinct = hash of the case."
 )
-BUDGET = {"quick": 16 * 250, "thorough": 16 * 8000}
+BUDGET = {"quick": 16 * 1500, "thorough": 16 * 8000}
 TOLERANCES = {
     "fixed vertices": "translation unchanged bitwise, SE2 angle within 4 ulp(pi) (re-wrap), quaternion bitwise",
     "backward residual": "|H_ff d + b_f| <= 1e-9*(|H_ff| |d| + |b_f|) + 1e-12*(1+S)*|H_ff|",
